@@ -113,6 +113,16 @@ open Flatland.Markup Flatland.C12 Flatland.C19.Proofs
 
 /-! ### every control kind renders -/
 
+/-- the tag call goes through: the six transforms succeed and leave the context as it was, and the
+    contents can be printed -/
+def Renders (T : Tables) (ctx : Ctx) (tag : Str) (b : Bind) (kw : Attrs) : Prop :=
+  ∃ st6 body, transform T tag (some b) ⟨kw, none, ctx⟩ = .ok st6 ∧ st6.ctx = ctx ∧ bodyOf st6.contents = .ok body
+
+theorem Renders.seen {T : Tables} {ctx : Ctx} {tag : Str} {b : Bind} {kw : Attrs} (h : Renders T ctx tag b kw) :
+    ∃ s, seenOf T ctx tag b kw = .ok s := by
+  obtain ⟨st6, body, ht, _, hb⟩ := h
+  exact ⟨_, seenOf_of_transform ht hb⟩
+
 theorem posts_single_ok {see : Str → Bind → Attrs → Except PyErr Seen} {tag : Str} {b : Bind} {kw : Attrs} {s : Seen}
     (h : see tag b kw = .ok s) : Control.posts see (.single tag b kw) = .ok (submitted tag s.1 s.2).toList := by
   unfold Control.posts
@@ -141,7 +151,7 @@ theorem name_step (T : Tables) (ctx : Ctx) (hL : Live T ctx) (tag : Str) (b : Bi
 
 theorem input_renders (T : Tables) (ctx : Ctx) (hT : TablesOK T) (hL : Live T ctx) (hQ : Quiet T ctx) (b : Bind)
     (ty : Option Str) (extra : Attrs) (hex : extraOk extra = true) (hty : textLikeTy ty = true) (hname : b.flatName ≠ []) :
-    ∃ s, seenOf T ctx sInput b (kwInput ty extra) = .ok s := by
+    Renders T ctx sInput b (kwInput ty extra) := by
   have n1 : sType ≠ "auto_name".toList := by decide
   have n2 : sType ≠ "auto_value".toList := by decide
   have n3 : sType ≠ sName := by decide
@@ -160,7 +170,7 @@ theorem input_renders (T : Tables) (ctx : Ctx) (hT : TablesOK T) (hL : Live T ct
         simp only [laterKeys, List.mem_cons, List.not_mem_nil, or_false] at hk
         rcases hk with rfl | rfl | rfl | rfl <;> decide
       rw [get?_kwInput_other _ _ _ this]; exact extraOk_later hex k hk)
-  exact ⟨_, seenOf_of_transform ht rfl⟩
+  exact ⟨_, _, ht, rfl, rfl⟩
 
 end Flatland.C12.Proofs
 
@@ -169,7 +179,7 @@ open Flatland.Markup Flatland.C12 Flatland.C19.Proofs
 
 theorem button_renders (T : Tables) (ctx : Ctx) (hT : TablesOK T) (hL : Live T ctx) (hQ : Quiet T ctx) (b : Bind)
     (extra : Attrs) (hex : extraOk extra = true) (hname : b.flatName ≠ []) :
-    ∃ s, seenOf T ctx sButton b extra = .ok s := by
+    Renders T ctx sButton b extra := by
   have h1 := name_step T ctx hL sButton b extra (extraOk_get? hex mem_reserved_autoName)
     (extraOk_get? hex mem_reserved_name) hname hT.nameButton
   have h2 := transformValue_plain T sButton b (named extra b ctx) hL.valueOn
@@ -177,17 +187,17 @@ theorem button_renders (T : Tables) (ctx : Ctx) (hT : TablesOK T) (hL : Live T c
     (by decide) (by decide) (by decide)
     (by rw [named_get? _ _ _ _ (by decide)]; exact extraOk_get? hex mem_reserved_value) hT.valueButton
   have ht := transform_of_steps T ctx hQ sButton b _ _ _ h1 h2 rfl (by decide) (extraOk_later hex)
-  exact ⟨_, seenOf_of_transform ht rfl⟩
+  exact ⟨_, _, ht, rfl, rfl⟩
 
 theorem textarea_renders (T : Tables) (ctx : Ctx) (hT : TablesOK T) (hL : Live T ctx) (hQ : Quiet T ctx) (b : Bind)
     (extra : Attrs) (hex : extraOk extra = true) (hname : b.flatName ≠ []) :
-    ∃ s, seenOf T ctx sTextarea b extra = .ok s := by
+    Renders T ctx sTextarea b extra := by
   have h1 := name_step T ctx hL sTextarea b extra (extraOk_get? hex mem_reserved_autoName)
     (extraOk_get? hex mem_reserved_name) hname hT.nameTextarea
   have h2 := transformValue_textarea T b (named extra b ctx) hL.valueOn
     (by rw [named_get? _ _ _ _ (by decide)]; exact extraOk_get? hex mem_reserved_autoValue) rfl hT.valueTextarea
   have ht := transform_of_steps T ctx hQ sTextarea b _ _ _ h1 h2 rfl (by decide) (extraOk_later hex)
-  exact ⟨_, seenOf_of_transform ht rfl⟩
+  exact ⟨_, _, ht, rfl, rfl⟩
 
 theorem later_kwCheck (ty lit : Str) (extra : Attrs) (hex : extraOk extra = true) :
     ∀ k ∈ laterKeys, Dict.get? (kwCheck ty lit extra) k = none := by
@@ -201,7 +211,7 @@ theorem later_kwCheck (ty lit : Str) (extra : Attrs) (hex : extraOk extra = true
 theorem check_renders (T : Tables) (ctx : Ctx) (hT : TablesOK T) (hL : Live T ctx) (hQ : Quiet T ctx) (b : Bind)
     (ty lit : Str) (extra : Attrs) (hex : extraOk extra = true) (hty : checkTy ty = true) (hname : b.flatName ≠ [])
     (m : Bool) (hm : b.matches T (some (.text lit)) = .ok m) :
-    ∃ s, seenOf T ctx sInput b (kwCheck ty lit extra) = .ok s := by
+    Renders T ctx sInput b (kwCheck ty lit extra) := by
   have hp := plain_kwCheck T ctx hL ty lit extra hex
   have h1 := name_step T ctx hL sInput b (kwCheck ty lit extra) hp.noNameOpt hp.noName hname hT.nameInput
   have h2 := transformValue_check_gen T b (named (kwCheck ty lit extra) b ctx) (.text ty) (.text lit) hL.valueOn
@@ -209,11 +219,11 @@ theorem check_renders (T : Tables) (ctx : Ctx) (hT : TablesOK T) (hL : Live T ct
     (by rw [named_get? _ _ _ _ (by decide)]; exact get?_kwCheck_type ty lit extra) (checkTy_code ty hty)
     (by rw [named_get? _ _ _ _ (by decide)]; exact get?_kwCheck_value ty lit extra) m hm hT.valueInput
   have ht := transform_of_steps T ctx hQ sInput b _ _ _ h1 h2 rfl (by decide) (later_kwCheck ty lit extra hex)
-  exact ⟨_, seenOf_of_transform ht rfl⟩
+  exact ⟨_, _, ht, rfl, rfl⟩
 
 theorem boolbox_renders (T : Tables) (ctx : Ctx) (hT : TablesOK T) (hL : Live T ctx) (hQ : Quiet T ctx) (b : Bind)
     (tru : Str) (extra : Attrs) (hex : extraOk extra = true) (hname : b.flatName ≠ []) (hkind : b.kind = .boolean tru) :
-    ∃ s, seenOf T ctx sInput b ((sType, .text sCheckbox) :: extra) = .ok s := by
+    Renders T ctx sInput b ((sType, .text sCheckbox) :: extra) := by
   have hkw : (sType, Val.text sCheckbox) :: extra = kwInput (some sCheckbox) extra := rfl
   rw [hkw]
   have n1 : sType ≠ "auto_name".toList := by decide
@@ -234,11 +244,11 @@ theorem boolbox_renders (T : Tables) (ctx : Ctx) (hT : TablesOK T) (hL : Live T 
         simp only [laterKeys, List.mem_cons, List.not_mem_nil, or_false] at hk
         rcases hk with rfl | rfl | rfl | rfl <;> decide
       rw [get?_kwInput_other _ _ _ this]; exact extraOk_later hex k hk)
-  exact ⟨_, seenOf_of_transform ht rfl⟩
+  exact ⟨_, _, ht, rfl, rfl⟩
 
 theorem option_renders (T : Tables) (ctx : Ctx) (hT : TablesOK T) (hL : Live T ctx) (hQ : Quiet T ctx) (b : Bind)
     (lit : Str) (extra : Attrs) (hex : extraOk extra = true) (m : Bool) (hm : b.matches T (some (.text lit)) = .ok m) :
-    ∃ s, seenOf T ctx sOption b (kwOption lit extra) = .ok s := by
+    Renders T ctx sOption b (kwOption lit extra) := by
   have n1 : sValue ≠ "auto_name".toList := by decide
   have n2 : sValue ≠ "auto_value".toList := by decide
   have h1 := transformName_skip T sOption (some b) ⟨kwOption lit extra, none, ctx⟩ hL.nameOn
@@ -252,17 +262,17 @@ theorem option_renders (T : Tables) (ctx : Ctx) (hT : TablesOK T) (hL : Live T c
         simp only [laterKeys, List.mem_cons, List.not_mem_nil, or_false] at hk
         rcases hk with rfl | rfl | rfl | rfl <;> decide
       rw [get?_kwOption_other _ _ _ this]; exact extraOk_later hex k hk)
-  exact ⟨_, seenOf_of_transform ht rfl⟩
+  exact ⟨_, _, ht, rfl, rfl⟩
 
 theorem select_renders (T : Tables) (ctx : Ctx) (hT : TablesOK T) (hL : Live T ctx) (hQ : Quiet T ctx) (b : Bind)
     (kw : Attrs) (h1 : Dict.get? kw "auto_name".toList = none) (h2 : Dict.get? kw "auto_value".toList = none)
     (h3 : Dict.get? kw sName = none) (hlater : ∀ k ∈ laterKeys, Dict.get? kw k = none) (hname : b.flatName ≠ []) :
-    ∃ s, seenOf T ctx sSelect b kw = .ok s := by
+    Renders T ctx sSelect b kw := by
   have e1 := name_step T ctx hL sSelect b kw h1 h3 hname hT.nameSelect
   have e2 := transformValue_skip T sSelect b (named kw b ctx) hL.valueOn
     (by rw [named_get? _ _ _ _ (by decide)]; exact h2) hT.valueSelect
   have ht := transform_of_steps T ctx hQ sSelect b _ _ _ e1 e2 rfl (by decide) hlater
-  exact ⟨_, seenOf_of_transform ht rfl⟩
+  exact ⟨_, _, ht, rfl, rfl⟩
 
 end Flatland.C12.Proofs
 
